@@ -34,7 +34,7 @@ ASSUMPTIONS = [
 
 
 def gen_cases(tier, seed):
-    reps = 2 if tier == "quick" else 48
+    reps = 2 if tier == "quick" else 120
     cases = []
     pairs = list(itertools.product(range(6), repeat=2))
     for rep in range(reps):
